@@ -263,7 +263,23 @@ fn main() {
             }
         }
         if let Some(d) = step.get("depfile").and_then(|d| d.as_arr()) {
-            let _ = std::fs::write(d[0].as_str().unwrap_or(""), d[1].as_str().unwrap_or(""));
+            let (path, text) = (d[0].as_str().unwrap_or(""), d[1].as_str().unwrap_or(""));
+            // a compiler cache / wrapper may keep the real file elsewhere and leave a symbolic link
+            let h = rng::fnv(text.as_bytes()) ^ rng::fnv(path.as_bytes());
+            if h % 5 == 0 {
+                let real = format!(".n2v/dep-{:016x}.d", h);
+                let _ = std::fs::write(&real, text);
+                let _ = std::fs::remove_file(path);
+                let depth = path.matches('/').count();
+                let target = format!("{}{}", "../".repeat(depth), real);
+                if std::os::unix::fs::symlink(&target, path).is_err() {
+                    let _ = std::fs::write(path, text);
+                }
+            } else {
+                // (replace a link left by an earlier run rather than writing through it)
+                let _ = std::fs::remove_file(path);
+                let _ = std::fs::write(path, text);
+            }
         }
         if let Some(d) = step.get("depfile_remove").and_then(|d| d.as_str()) {
             let _ = std::fs::remove_file(d);
